@@ -62,6 +62,11 @@ CLAIMS["C02"] = ("bounded symbolic execution (symx) of the real PDFXRefStream.ge
          "in an object stream, per revision) getobj returns the newest definition with caching on or off; for every Prev/XRefStm pointer graph (incl. cycles) sections load newest -> XRefStm -> Prev, each once; "
          "classic tables and startxref are read for every subsection partition, EOL form and buffer size (enumeration harnesses). The body-scan fallback is not claimed.",
          "4.C02")
+CLAIMS["C17"] = ("bounded symbolic execution (symx) of the real NumberTree, PageLabels.labels, format_int_roman/alpha, lookup_name/get_dest, get_outlines and decode_text",
+         "Number trees with symbolic keys flatten sorted; format_int_roman equals the reference for every symbolic value 1..3999 (digits discovered by forking); page labels for every range/style/St/prefix "
+         "choice within the bound equal ISO 12.4.2 (alpha beyond 26 is a known finding); get_dest finds exactly the present keys in every tree shape with Limits and raises the not-found error otherwise; "
+         "get_outlines yields every conforming forest of 4 items in pre-order with levels, terminates on any redirected Next/First pointer, and does not deepen the stack along sibling chains.",
+         "4.C17")
 NA = {}
 def main():
     props = [json.loads(l) for l in open(os.path.join(ROOT, "properties.jsonl"))]
